@@ -66,6 +66,7 @@ def case_strategy(draw):
         whole = {"cls": "Cuboid", "dimension": dim, "polarization": pol, **pose}
         if kind == "cuboid_parts":
             case["cuts"] = [draw(_cuts(-d / 2, d / 2)) if draw(st.booleans()) or ax == 0 else [] for ax, d in enumerate(dim)]
+            case["parts_as"] = draw(st.sampled_from(["cuboid", "cuboid", "mesh"]))  # sub-cuboids, or each of them as a TriangularMesh box
         if kind == "cuboid_mesh":
             case["ctor"] = draw(st.sampled_from(["convexhull", "direct", "from_mesh", "from_triangles"]))
             case["flip"] = draw(st.lists(st.booleans(), min_size=12, max_size=12))
@@ -108,6 +109,7 @@ def case_strategy(draw):
         regions = ["generic", "near_axis", "axis_exact", "far", "base_plane"]
     obs = draw(gen.region_observers(whole, n_min=2, n_max=6, regions=regions, clear=1e-2 if kind == "ngon_circle" else 1e-3))
     case["observers"] = obs
+    case["one_call"] = draw(st.booleans())  # additionally sum the parts in one library call (list of sources, sumup=True)
     return case
 
 
@@ -149,7 +151,12 @@ def build_sides(case):
                 for k in range(len(edges[2]) - 1):
                     lo = np.array([edges[0][i], edges[1][j], edges[2][k]])
                     hi = np.array([edges[0][i + 1], edges[1][j + 1], edges[2][k + 1]])
-                    parts.append({"cls": "Cuboid", "dimension": (hi - lo).tolist(), "polarization": pol, **_place((lo + hi) / 2, pose)})
+                    if case.get("parts_as") == "mesh":
+                        Vb, Fb = gen.box_mesh((hi - lo).tolist())
+                        parts.append({"cls": "TriangularMesh", "vertices": np.asarray(Vb, dtype=float).tolist(), "faces": np.asarray(Fb).tolist(),
+                                      "polarization": pol, **_place((lo + hi) / 2, pose)})
+                    else:
+                        parts.append({"cls": "Cuboid", "dimension": (hi - lo).tolist(), "polarization": pol, **_place((lo + hi) / 2, pose)})
         return whole, parts, True
     if kind in ("cuboid_mesh", "cuboid_tetra", "cuboid_triangles"):
         dim = case["dimension"]
@@ -291,8 +298,29 @@ def run_case(case, ctx):
                     tp, npn = geom.special_dist(pbody, lw[None], with_name=True)
                     allow[m, k] += c01.tolerance(pcls, float(tp[0]) / pbody.L, float(pbody.dist(lw[None])[0]) / pbody.L,
                                                  npn[0] if npn[0] in ("edge_line", "surface") else "surface") * float(np.linalg.norm(Fp[m, k]))
-    if kind == "sphere_dipole":
-        pass
+    # the same partition summed by the library in one call: must equal the sum of the single calls (same formulas, same
+    # inputs: rounding only)
+    if case.get("one_call") and len(parts) >= 2:
+        objs = [build.build_source(p) if isinstance(p, dict) else p for p in parts]
+        r1 = build.call(fn, objs, G, squeeze=False, sumup=True)
+        if not r1.ok:
+            out.append(Violation({"sub": "call_raised", "kind": kind, "side": "parts_in_one_call", **exc_sig(r1.exc)}, repr(r1.exc)[:200]))
+        else:
+            t1 = np.asarray(r1.value).reshape(-1, len(G), 3)
+            if t1.shape[0] == 1 and M > 1:
+                t1 = np.repeat(t1, M, axis=0)
+            with np.errstate(invalid="ignore"):
+                d1 = np.linalg.norm(t1 - tot, axis=-1)
+            psum = np.zeros((M, len(G)))
+            ok1 = np.isfinite(d1)
+            # (1e-7: cylinder-type accuracy; plus the parts' own accuracy band where they are ill-conditioned)
+            bad1 = (d1 > 1e-7 * np.maximum(np.linalg.norm(tot, axis=-1), 1e-3 * S) + allow) & ok1
+            if np.any(bad1):
+                m_, k_ = (int(x) for x in np.argwhere(bad1)[0])
+                out.append(Violation({"sub": "parts_in_one_call_differ", "kind": kind, "field": field, "parts_as": case.get("parts_as", "n/a")},
+                                     f"{kind}: getX([{len(parts)} parts], obs, sumup=True) differs from the sum of the single calls by "
+                                     f"{float(d1[m_, k_]):.3g} (sum {tot[m_, k_].tolist()}) at observer {keep[k_][0]['local']}"))
+            ctx.label("parts_in_one_call")
     diff = np.linalg.norm(tot - Fw, axis=-1)
     finite = np.isfinite(diff)
     if not np.all(finite):
